@@ -196,6 +196,48 @@ func init() {
 		h := x.heapGet(st, "G_bufContent", arraySort(SInt, SStr))
 		return []Term{sel(h, *recv)}
 	}
+	// deep.Copy(p) for a pointer to a struct: a fresh object whose pointer parameters are fresh copies
+	// of the source's (non-nil exactly when the source's are, with equal pointees); slices and maps are
+	// copied (same nil-ness). Assumed behaviour of github.com/brunoga/deep, listed in the evidence.
+	specialExternals["github.com/brunoga/deep.Copy"] = func(x *Exec, call *ast.CallExpr, fn *types.Func, recv *Term, args []Term, st *State) []Term {
+		t := x.typeOf(call.Args[0])
+		pt, ok := t.Underlying().(*types.Pointer)
+		if !ok {
+			return x.applyExternal(call, fn, effAlloc, recv, args, st)
+		}
+		stt, ok := pt.Elem().Underlying().(*types.Struct)
+		if !ok {
+			return x.applyExternal(call, fn, effAlloc, recv, args, st)
+		}
+		_ = stt
+		src := x.eval(call.Args[0], st)
+		errT := intLit(0) // assumed: deep.Copy of a configuration struct (maps, slices, scalars) does not fail
+		si := x.structOf(pt.Elem())
+		pre := st.clone()
+		r := x.allocRef(st, "deepcopy")
+		for i := range si.Fields {
+			f := &si.Fields[i]
+			hn := fieldHeapName(si, f)
+			sv := sel(x.heapGet(pre, hn, arraySort(SInt, f.Sort)), src)
+			var nv Term
+			switch u := f.Type.Underlying().(type) {
+			case *types.Pointer:
+				c := x.allocRef(st, "deepcopy_"+f.Name)
+				x.storePtr(st, c, u.Elem(), x.loadPtr(pre, sv, u.Elem()))
+				nv = ite(eq(sv, intLit(0)), intLit(0), c)
+			case *types.Map:
+				c := x.allocRef(st, "deepcopy_"+f.Name)
+				nv = ite(eq(sv, intLit(0)), intLit(0), c)
+			default:
+				nv = sv
+			}
+			h := x.heapGet(st, hn, arraySort(SInt, f.Sort))
+			x.heapSet(st, hn, store(h, r, nv))
+		}
+		res := ite(eq(src, intLit(0)), intLit(0), r)
+		x.noteLastErr(st, fn, []Term{res, errT})
+		return []Term{res, errT}
+	}
 	// ast.Walk(v, node) calls v.Visit repeatedly: whatever Visit's contract assigns may change
 	specialExternals["go/ast.Walk"] = func(x *Exec, call *ast.CallExpr, fn *types.Func, recv *Term, args []Term, st *State) []Term {
 		vt := x.typeOf(call.Args[0])
